@@ -391,6 +391,8 @@ class FormatSpec(object):
         if self.pep701:
             # Since Python 3.12 backslash escapes are recognised in a format spec
             s = s.replace('\\', '\\\\').replace('\n', '\\n').replace('\r', '\\r').replace('\0', '\\x00')
+            # A lone surrogate can't be encoded, so it has to be written as an escape
+            s = ''.join('\\u%04x' % ord(c) if 0xD800 <= ord(c) <= 0xDFFF else c for c in s)
 
         return s.replace('{', '{{').replace('}', '}}')
 
